@@ -6,12 +6,13 @@ filled by `Salt()` → `salt.NewSalt`, which generates AND Puts a new salt throu
 current request carries — inside the request's transaction when there is one).
 
 Transliterated, at storage-operation granularity with the fault knob of DESIGN section 4:
-* `confWriteF` — pathConfigWrite.  On a cache miss `config()` returns THE object it has just cached, and the handler
-  mutates it before the Put; on a hit it returns a copy.
+* `confWriteF` — pathConfigWrite.  `config()` hands out a copy of the cached configuration, on a hit and (since the
+  repair of finding F28) on a miss; before the repair the miss path returned THE object it had just cached and the
+  handler mutated it before the Put.
 * `coldWrite` — pathDataWrite of a key that does not exist yet (no clean-up), with every cache possibly cold.
   The salt generated on a miss is cached at once, but persisted only if the transaction commits.
-`restart` drops the caches.  Both handlers violate C14's "a write that fails leaves data and metadata unchanged" from
-a cold cache (findings; `Obao/Props/C14.lean`: `…_cex`).
+`restart` drops the caches.  `coldWrite` violates C14's "a write that fails leaves data and metadata unchanged" from a
+cold salt cache on transactional storage (finding F29; `Obao/Props/C14.lean`: `failed_write_salt_persisted_cex`).
 -/
 namespace Obao.KV2
 
@@ -54,10 +55,10 @@ def confWriteF (c : Cold) (mx : Option Int) (cr : Option Bool) (dva : Option Dva
     else ({ c with cfgStored := new, cfgCache := some new }, false, false)
   | none =>
     if hit fault b then (c, true, true) else          -- the Get failed: nothing cached
-    -- cache miss: the loaded object is cached and handed out; the handler's assignments go to the cached object
+    -- cache miss: the loaded object is cached, the handler works on a copy of it (as on a hit)
     let new := confWrite c.cfgStored mx cr dva
-    if hit fault (b + 1) then ({ c with cfgCache := some new }, true, true)
-    else if tx ∧ hit fault (b + 2) then ({ c with cfgCache := some new }, true, true)
+    if hit fault (b + 1) then ({ c with cfgCache := some c.cfgStored }, true, true)
+    else if tx ∧ hit fault (b + 2) then ({ c with cfgCache := some c.cfgStored }, true, true)
     else ({ c with cfgStored := new, cfgCache := some new }, false, false)
 
 /-- the Puts and the Commit of the write once the salt is known; `pending`: a freshly generated salt was Put inside
